@@ -59,7 +59,14 @@ def pre_build():
 
 def translated_tie():
     from . import translate_c06
-    return translate_c06.regenerate(), "theories/C06/Tie.vo"
+    status = translate_c06.regenerate()
+    if all(v == "translated" for v in status.values()):
+        # safety net: a generated file that does not typecheck is a translator defect, never a verdict
+        ok, log = vlib.make(["theories/Gen/C06_setters.vo"])
+        if not ok:
+            status["Gen/C06_setters.v"] = "untranslatable: the generated definitions do not typecheck (%s)" % (
+                " ".join(log.split())[-200:])
+    return status, "theories/C06/Tie.vo"
 
 
 # --------------------------------------------------------------------------------------
